@@ -131,10 +131,20 @@ def make_cases(ctx):
             text, origin, name, lang = open(f, errors='replace').read(), 'lib', 'lib/' + os.path.basename(f), 'cpp'
         else:
             lang = rng.choice(['c', 'cpp'])
-            p = featgen.gen(rng, lang)
-            text, kinds = mutate.mutate_tokens(rng, p.text, None, nmut=rng.choice([1, 1, 2]))
-            origin, name, macros = 'mutant', 'featgen-mutant:' + '+'.join(kinds), p.macros
+            if rng.random() < 0.5:
+                p = featgen.gen(rng, lang)
+                base, macros, what = p.text, p.macros, 'featgen'
+            else:
+                base, what = progen.gen(rng, lang, size=0.5, profile='full').plain, 'progen'
+            if rng.random() < 0.5:
+                text, kinds = mutate.mutate_tokens(rng, base, None, nmut=rng.choice([1, 1, 2]))
+            else:
+                text, kinds = mutate.mutate_gentle(rng, base)
+                kinds = ['gentle-' + x for x in kinds]
+            origin, name = 'mutant', '%s-mutant:%s' % (what, '+'.join(kinds))
         opts = _opts(rng, lang, macros)
+        if 'winapi' in name:
+            opts = [o for o in opts if not o.startswith('--platform')] + ['--platform=' + rng.choice(['win32A', 'win32W', 'win64'])]
         if '--inline-suppr' in opts:
             text = _suppress_comments(rng, text)
         if origin == 'cfg':
